@@ -35,7 +35,7 @@ def gen_stmt_case(rng):
     kinds, conds = set(), []
     for _ in range(rng.choice([0, 1, 2, 3])):
         c = c10.gen_cond(rng)
-        if c[0] not in kinds and c[0] != "nexthop":
+        if c[0] not in kinds and c[0] not in ("nexthop", "commre"):
             kinds.add(c[0])
             conds.append(c)
     used = set()
